@@ -198,6 +198,16 @@ def corner_cases(ctx):
     out.append(("corner:pending-string-at-eof", b"import ipv4;\nipv4::udp::unicast(1.2.3.4:1,1.2.3.5:2,\"x\"); \"dangling\"\n"))
     out.append(("corner:unterminated-call", b"import ipv4;\nipv4::udp::unicast(1.2.3.4:1,\n"))
     out.append(("corner:time-max", (PREAMBLE + "time::jump_seconds(4294967295);\ntime::jump_seconds(4294967295);\n").encode()))
+    # values that end up in a diagnostic or a warning (discarded as a statement, called like a function, a failing
+    # argument): long strings whose text has a multi-byte character or undecodable bytes around the offsets where a
+    # message might be cut (64, 128, 256, 1024), empty strings, and every value kind
+    for cut in (16, 32, 64, 80, 128, 256, 1024):
+        for fill, tag in (("a" * (cut - 1) + "\u00e9" + "b" * 40, "accent"), ("a" * (cut - 2) + "\u20ac" + "b" * 40, "euro"),
+                          ("a" * (cut - 3) + "\U0001f600" + "z" * 9, "astral"), ("|" + "ff " * (cut // 3 + 2) + "|", "undecodable"),
+                          ("a" * (cut - 1) + "|c3|" + "b" * 5, "truncated-sequence")):
+            lit = '"%s"' % fill
+            src = PREAMBLE + "let s = %s;\ns;\ntext::concat(%s);\nipv4::udp::unicast(1.2.3.4:1, 1.2.3.5:2, %s);\ns(1);\n" % (lit, lit, lit)
+            out.append(("corner:diagnostic-text:%s:%d" % (tag, cut), src.encode("utf-8")))
     return out
 
 
